@@ -94,7 +94,12 @@ def merge(results):
             if isinstance(v, (int, float)) and isinstance(m["notes"].get(k), (int, float)):
                 m["notes"][k] = max(m["notes"][k], v)
             elif isinstance(v, dict) and isinstance(m["notes"].get(k), dict):
-                m["notes"][k].update(v)
+                for kk, vv in v.items():
+                    old_v = m["notes"][k].get(kk)
+                    if isinstance(vv, (int, float)) and isinstance(old_v, (int, float)):
+                        m["notes"][k][kk] = old_v + vv
+                    else:
+                        m["notes"][k][kk] = vv
             else:
                 m["notes"].setdefault(k, v)
         for k, v in r["spaces"].items():
@@ -163,6 +168,9 @@ def main(argv=None):
     m = merge(results)
     for e in m["harness_errors"][:5]:
         inconclusive.append("harness error: " + e[-600:])
+
+    if hasattr(mod, "post_merge") and not args.replay:
+        mod.post_merge(m, inconclusive)
 
     known = {(f["property"], f["key"]): f for f in load_known_findings()}
     viol_lines, known_lines = [], []
